@@ -688,7 +688,10 @@ def enumerate_api(text):
 def gen_fields(structs):
     """trait Fields: the bytes of every field in declaration order (padding excluded); real fields with all NaNs made equal"""
     names = set(s['name'] for s in structs)
-    o = ['    pub trait Fields { unsafe fn fb(p: *const Self, out: &mut Vec<u64>); }',
+    # niche(): bit patterns that are INVALID for the declared Rust type although the C type admits them (a null in a field declared `extern "C" fn`, a bool byte above 1): the
+    # C definition and the mirror then agree in size, offset and machine type, yet a value the library writes is not "read identically" by Rust - it is the niche rustc uses
+    # for Option<struct> (seeded change C20-N: a_pid_fuzzy_set_opr stores NULL for the default operator; Some(controller) reads back as None)
+    o = ['    pub trait Fields { unsafe fn fb(p: *const Self, out: &mut Vec<u64>); unsafe fn niche(_p: *const Self) -> Option<&\'static str> { None } }',
          '    pub unsafe fn raw(p: *const u8, n: usize, out: &mut Vec<u64>) { let mut i = 0usize; while i + 8 <= n { out.push(core::ptr::read_unaligned(p.add(i) as *const u64)); i += 8; } '
          'let mut t: u64 = 0; let mut k = 0; while i < n { t |= (*p.add(i) as u64) << (8 * k); i += 1; k += 1; } if k > 0 { out.push(t); } }']
     for s in structs:
@@ -702,6 +705,17 @@ def gen_fields(structs):
                 o.append('        <%s as Fields>::fb(core::ptr::addr_of!((*p).%s), out);' % (ty, fn_))
             else:
                 o.append('        raw(core::ptr::addr_of!((*p).%s) as *const u8, core::mem::size_of::<%s>(), out);' % (fn_, ty))
+        o.append('    }')
+        o.append('    unsafe fn niche(p: *const Self) -> Option<&\'static str> {')
+        for fn_, ty in s['fields']:
+            t = ty.strip()
+            if re.match(r'(unsafe\s+)?extern\s+"C"\s+fn\b', t) or t.startswith('&') or t.startswith('NonNull<') or t.startswith('core::ptr::NonNull<'):
+                o.append('        if core::ptr::read_unaligned(core::ptr::addr_of!((*p).%s) as *const usize) == 0 { return Some("%s"); }' % (fn_, fn_))
+            elif t == 'bool':
+                o.append('        if core::ptr::read_unaligned(core::ptr::addr_of!((*p).%s) as *const u8) > 1 { return Some("%s"); }' % (fn_, fn_))
+            elif t in names:
+                o.append('        if let Some(f) = <%s as Fields>::niche(core::ptr::addr_of!((*p).%s)) { return Some(f); }' % (t, fn_))
+        o.append('        None')
         o.append('    } }')
     return '\n'.join(o)
 
